@@ -307,7 +307,8 @@ theorem departed_removes_only_its_own_entry (s t : St) (o : Obs) (k : Nat) (hk :
     (hs : s.cfg.spare = true) (hst : step s (.releaseHook k) = .ok (t, o)) :
     (∀ g, g ≠ k → (s.cli g).phase ≠ .backlog → g ∉ s.queue → Same (s.cli g) (t.cli g)) := by
   intro g hg hb hq
-  exact others_untouched_pool hk hs (.releaseHook k) rfl g (by simp [Op.client, Ne.symm hg]) hb hq hst
+  exact others_untouched_pool hk hs (.releaseHook k) rfl g (by simp [Op.client, Ne.symm hg]) hb hq
+    (by intro _ _ h; cases h) hst
 
 /-- with the pinned `_drop_connection(fd)`: client 1 leaves, client 3 is given its descriptor number while client 1's
 `on_disconnect` is still running; when it returns the server removes and closes client 3's connection -/
